@@ -128,7 +128,14 @@ func corrC17(outDir string, seed uint64, tier string, replay string) *report {
 				}
 			}()
 			for _, ch := range chunks {
-				_, err := enc.Write(ch)
+				// the chunk is handed over in a scratch buffer (with spare capacity) that the caller overwrites as soon as
+				// Write has returned, as io.Copy does: the encoder must have taken what it needs
+				scratch := make([]byte, len(ch), len(ch)+3)
+				copy(scratch, ch)
+				_, err := enc.Write(scratch)
+				for i := range scratch[:cap(scratch)] {
+					scratch[:cap(scratch)][i] = 0xEE
+				}
 				errs = append(errs, err)
 			}
 			err := enc.Close()
@@ -364,9 +371,12 @@ func corrC17(outDir string, seed uint64, tier string, replay string) *report {
 		var sizes []int
 		fixed := []int{1, 2, 3, 4, 5, 7, 64, 1000, 4096}[r.intn(9)]
 		for k := 0; k < 3*len(text)+20; k++ {
-			if r.intn(3) == 0 {
+			switch {
+			case r.intn(12) == 0:
+				sizes = append(sizes, 0) // a zero-length Read is legal and must neither lose data nor report the end early
+			case r.intn(3) == 0:
 				sizes = append(sizes, 1+r.intn(4096))
-			} else {
+			default:
 				sizes = append(sizes, fixed)
 			}
 		}
@@ -484,7 +494,11 @@ func corrC17(outDir string, seed uint64, tier string, replay string) *report {
 				if st.off+k > len(st.data) {
 					k = len(st.data) - st.off
 				}
-				st.enc.Write(st.data[st.off : st.off+k])
+				tmp := append([]byte(nil), st.data[st.off:st.off+k]...)
+				st.enc.Write(tmp)
+				for i := range tmp {
+					tmp[i] = 0xEE
+				}
 				st.off += k
 			}
 			for i, st := range streams {
